@@ -103,6 +103,12 @@ def spec_from_ctype(ct):
     """Sort spec string for a declared C type."""
     if ct is None:
         return None
+    import re as _re
+    m = _re.match(r'^([\w. ]+)\[(\d+)\]$', ct)
+    if m:
+        base = m.group(1)
+        el = 'real' if base in C_REAL else ('int' if base in C_INT or base in C_BOOL else 'ref')
+        return 'arr:%s:1:%s' % (el, m.group(2))
     if '[' in ct and ct.endswith(']') and ':' in ct:
         base = ct.split('[')[0]
         nd = ct.count(':')
